@@ -173,6 +173,28 @@ def ctor_formula(scn, v, o):
                 "apply(f)[%d] = sum_j W[j,%d] f[j]" % (i, i)) for i in range(W.shape[1])]
 
 
+def p1_folded(scn, v, o):
+    """Pinhole1D evaluates the documented Gaussian on the whole window: when
+    [q-2.5s, q+3s] reaches below zero (beyond the excluded band |q'| < 0.02 min q)
+    the grid handed to the weight-matrix builder keeps the negative points down to
+    the window limit, and the theory is requested at their absolute values
+    (the sub-zero part of the kernel is folded onto |q'|, not cut off and renormalised)."""
+    if not _ok(o):
+        return []
+    q, s, G, qc = v["q"], o["s"], list(o["G"]), list(o["qcalc"])
+    cut = 0.02 * q[0]
+    lo = [q[i] - NLOW * s[i] for i in range(len(q))]
+    qmin = lo[0]
+    for x in lo[1:]:
+        qmin = g_min(qmin, x)
+    reaches = qmin <= -cut
+    out = [Rel("le", G[0], lo[i] + 2e-8, "signed grid reaches down to q[%d]-2.5s < 0" % i, when=reaches, scale=0.0)
+           for i in range(len(q))]
+    out.append(Rel("true", len(qc) == len(G), "one q_calc value per weight-matrix row"))
+    out += [Rel("eq", qc[j], g_abs(G[j]), "q_calc[%d] = |signed grid point|" % j) for j in range(min(len(G), len(qc)))]
+    return out
+
+
 def p2_constants(acc):
     nr = {"xhigh": 10, "high": 5, "med": 5, "low": 3}[acc]
     nphi = {"xhigh": 20, "high": 12, "med": 6, "low": 4}[acc]
@@ -282,6 +304,8 @@ class _CloudOf:
 
 
 def oracles_for(scn):
+    if scn.kind == "pinhole1d" and scn.cfg.get("grid") != "user":
+        return list(ORACLES["pinhole1d"]) + [("window-folded-at-zero", p1_folded)]
     if scn.kind == "slit-matrix" and scn.cfg["mode"] == "00":
         return [("zero-width-identity", c03.sm_zero)]
     if scn.kind == "pinhole2d":
